@@ -261,6 +261,17 @@ def _call_fnlike(interp, f, argv, st, frame, site, what):
         return None
 
 
+def m_opt_cloned(interp, fn, args, st, site, frame):
+    """Option<&T>::cloned / copied: Some(&x) -> Some(x) (values have no identity in the abstraction)"""
+    out = []
+    for (v, st2) in opt_cases(interp, args[0], st, "opt@" + site):
+        if v.variant == 0:
+            out.append((NONE, st2))
+        else:
+            out.append((some(deref(interp, v.fields[0], st2)), st2))
+    return out
+
+
 def m_opt_unwrap_or(interp, fn, args, st, site, frame):
     out = []
     for (v, st2) in opt_cases(interp, args[0], st, "opt@" + site):
@@ -988,6 +999,195 @@ def m_iter_next(interp, fn, args, st, site, frame):
 def m_range_into_iter(interp, fn, args, st, site, frame):
     return None
 
+# ------------------------------------------------------------------------------------------------
+# iterator adaptors with an internal loop, over iterators that are not concrete (`find`, `any`, `all`, `position`,
+# `for_each`, `fold` over a symbolic sequence): the loop `while let Some(x) = it.next() { .. }` is run to a fixpoint over the
+# abstract store, exactly like a MIR loop head, with the rule's own model of `next` supplying the elements
+
+def _next_fn_of(fn):
+    full = fn.get("rfull") or fn.get("full") or ""
+    m = re.match(r"^<(.*) as std::iter::Iterator>::\w+(::<.*>)?$", full)
+    if not m:
+        return None
+    return {"path": "std::iter::Iterator::next", "full": "<%s as std::iter::Iterator>::next" % m.group(1), "resolved": False,
+            "key": "std::iter::Iterator::next", "dk": "AssocFn", "args": []}
+
+
+def _adaptor_loop(interp, fn, it_arg, st, site, frame, step, on_end):
+    """-> list of (value, state), or None when the iterator cannot be stepped abstractly.
+    step(item, state) -> [("yield", value, state) | ("continue", state)];  on_end(state) -> value"""
+    nfn = _next_fn_of(fn)
+    if nfn is None:
+        return None
+    # a workspace iterator type: resolve its own next() (lifetimes are spelled differently at the call and at the impl)
+    norm = lambda p_: re.sub(r"'\w+", "'_", p_)
+    for b_ in interp.prog.bodies.values():
+        if b_.path.endswith("as std::iter::Iterator>::next") and norm(b_.path) == norm(nfn["full"]):
+            nfn.update({"resolved": True, "rkey": b_.key, "rpath": b_.path, "rfull": b_.path})
+            break
+    if not interp.find_models(nfn["full"]) and not nfn.get("resolved") and not getattr(interp, "adaptor_loops", False):
+        return None                       # no model of next() for this iterator: only run it when the rule asks for it
+    if isinstance(it_arg, Ref):
+        itref = it_arg
+    else:
+        st = st.fork()
+        cell = ("h", "adaptor-it", site, frame.depth)          # one cell per site: re-execution reproduces the same store
+        st.heap[cell] = it_arg
+        itref = Ref(cell, (), True)
+    results = []
+    work = [st]
+    visits = {}
+    rounds = 0
+    rt = getattr(interp, "_ret_ty", None)
+    next_ty = rt if (rt is not None and adt_base_name(ty_s(rt) or "") == OPTION and re.search(r"Iterator>::find", fn.get("rfull") or fn.get("full") or "")) else None
+    while work:
+        s = work.pop()
+        rounds += 1
+        if rounds > 400:
+            return None
+        key = interp.state_key(frame, ("adaptor", site), s)
+        if key in visits:
+            continue
+        visits[key] = 1
+        interp._ret_ty = next_ty          # an opaque next() must come back as an Option, whatever ran in between
+        outs = interp.call_fn(nfn, [itref], s, "%s#next" % site, frame)
+        cases = []
+        for (item, s2) in outs:
+            item = interp.concretize(item, s2)
+            if isinstance(item, Adt) and item.name == OPTION:
+                cases.append((item, s2))
+            elif isinstance(item, Top) and getattr(interp, "adaptor_loops", False):
+                cases.extend(opt_cases(interp, item, s2, "next@" + site))      # an opaque next(): either outcome
+            else:
+                return None
+        for (item, s2) in cases:
+            if item.variant == 0:
+                results.append((on_end(s2), s2))
+                continue
+            for r in step(item.fields[0], s2):
+                if r is None:
+                    return None
+                if r[0] == "continue":
+                    work.append(r[1])
+                else:
+                    results.append((r[1], r[2]))
+    return results
+
+
+def _as_bool_cases(interp, b, st):
+    b = interp.concretize(b, st)
+    if isinstance(b, Const):
+        return [(bool(b.v), st)]
+    if isinstance(b, Sym):
+        out = []
+        for d in (0, 1):
+            st2 = st.fork()
+            st2.bind[b.name] = d
+            st2.choose(b.name, d)
+            out.append((bool(d), st2))
+        return out
+    if isinstance(b, Adt) and b.name == "!" and isinstance(b.fields[0], Sym):
+        return [(not v, s_) for (v, s_) in _as_bool_cases(interp, b.fields[0], st)]
+    return None
+
+
+def m_iter_find_loop(interp, fn, args, st, site, frame):
+    if len(args) != 2 or (isinstance(args[0], Adt) and args[0].name.startswith("it:")):
+        return None
+    what = re.search(r"Iterator>::(find|any|all|position)(::<.*>)?$", fn.get("rfull") or fn.get("full") or "")
+    if not what:
+        return None
+    what = what.group(1)
+
+    def step(item, s):
+        arg = item
+        if what == "find":                      # the predicate of find takes a reference to the item
+            s = s.fork()
+            cell = ("h", "find-item", site, frame.depth)
+            s.heap[cell] = item
+            arg = Ref(cell, (), False)
+        r = _call_fnlike(interp, args[1], [arg], s, frame, site, what)
+        if r is None:
+            return [None]
+        out = []
+        for (b, s2) in r:
+            cases = _as_bool_cases(interp, b, s2)
+            if cases is None:
+                return [None]
+            for (v, s3) in cases:
+                if what == "find":
+                    out.append(("yield", some(item), s3) if v else ("continue", s3))
+                elif what == "any":
+                    out.append(("yield", Const(1, "bool"), s3) if v else ("continue", s3))
+                elif what == "all":
+                    out.append(("continue", s3) if v else ("yield", Const(0, "bool"), s3))
+                else:
+                    out.append(("yield", some(Top("position@" + site)), s3) if v else ("continue", s3))
+        return out
+    end = {"find": NONE, "position": NONE, "any": Const(0, "bool"), "all": Const(1, "bool")}[what]
+    res = _adaptor_loop(interp, fn, args[0], st, site, frame, step, lambda s: end)
+    if res is not None:
+        for (_v, s_) in res:
+            s_.heap.pop(("h", "find-item", site, frame.depth), None)
+    return res
+
+
+def m_iter_fold_loop(interp, fn, args, st, site, frame):
+    """fold / for_each over a non-concrete iterator: the accumulator lives in a heap cell so that it is part of the
+    abstract store the fixpoint compares"""
+    full = fn.get("rfull") or fn.get("full") or ""
+    is_fold = re.search(r"Iterator>::fold(::<.*>)?$", full) is not None
+    if (isinstance(args[0], Adt) and args[0].name.startswith("it:")) or len(args) != (3 if is_fold else 2):
+        return None
+    st = st.fork()
+    acc = ("h", "fold-acc", site, frame.depth)
+    st.heap[acc] = args[1] if is_fold else UNIT
+    f = args[2] if is_fold else args[1]
+
+    def step(item, s):
+        r = _call_fnlike(interp, f, ([s.heap[acc], item] if is_fold else [item]), s, frame, site, "fold")
+        if r is None:
+            return [None]
+        out = []
+        for (v, s2) in r:
+            if is_fold:
+                s2 = s2.fork()
+                s2.heap[acc] = v
+            out.append(("continue", s2))
+        return out
+    res = _adaptor_loop(interp, fn, args[0], st, site, frame, step, lambda s: s.heap.get(acc, UNIT))
+    if res is not None:
+        for (_v, s_) in res:
+            s_.heap.pop(acc, None)
+    return res
+
+
+
+def m_fn_call(interp, fn, args, st, site, frame):
+    """<F as FnOnce / FnMut / Fn>::call_once / call_mut / call (f, (a, b, ..)) with f a closure value or a function item: the
+    call a generic helper makes through its `F: Fn(..)` parameter"""
+    if len(args) != 2:
+        return None
+    f = args[0]
+    guard = 0
+    while isinstance(f, Ref) and guard < 4:
+        base = st.heap.get(f.addr)
+        if base is None:
+            return None
+        f = interp.concretize(interp.get_at(base, f.path), st)
+        guard += 1
+    tup = interp.concretize(args[1], st)
+    if isinstance(tup, Adt) and tup.name == "tuple":
+        argv = list(tup.fields)
+    elif tup is UNIT:
+        argv = []
+    else:
+        return None
+    if not (isinstance(f, FnV) or (isinstance(f, Adt) and f.name.startswith("closure:"))):
+        return None
+    return _call_fnlike(interp, f, argv, st, frame, site, "call")
+
+
 def m_identity(interp, fn, args, st, site, frame):
     return [(args[0], st)]
 
@@ -1076,6 +1276,7 @@ BASE_MODELS = [
     (r"^std::option::Option::<.*>::as_ref$|^std::option::Option::<.*>::as_mut$", m_opt_as_ref),
     (r"^std::option::Option::<.*>::take$", m_opt_take),
     (r"^std::option::Option::<.*>::or$", m_opt_or),
+    (r"^std::option::Option::<&.*>::(cloned|copied)$", m_opt_cloned),
     (r"^std::option::Option::<.*>::ok_or_else", m_opt_ok_or_else),
     (r"^std::option::Option::<.*>::ok_or", m_opt_ok_or),
     (r"^std::option::Option::<.*>::is_some_and", m_opt_is_some_and),
@@ -1110,7 +1311,10 @@ BASE_MODELS = [
     (r"^std::iter::Iterator::take$|as std::iter::Iterator>::take$", m_iter_take),
     (r"^std::iter::Iterator::zip$|as std::iter::Iterator>::zip(::<.*>)?$", m_iter_zip),
     (r"^std::iter::Iterator::for_each$|as std::iter::Iterator>::for_each(::<.*>)?$", m_iter_for_each),
+    (r"as std::ops::Fn(Once|Mut)?<.*>>::call(_once|_mut)?$", m_fn_call),
     (r"^std::iter::Iterator::fold$|as std::iter::Iterator>::fold(::<.*>)?$", m_iter_fold),
+    (r"as std::iter::Iterator>::(fold|for_each)(::<.*>)?$", m_iter_fold_loop),
+    (r"as std::iter::Iterator>::(find|any|all|position)(::<.*>)?$", m_iter_find_loop),
     (r"^std::iter::Iterator::chain$|as std::iter::Iterator>::chain(::<.*>)?$", m_iter_chain),
     (r"^core::slice::<impl \[.*\]>::split_at(_mut)?$", m_split_at_concrete),
     (r"^core::slice::<impl \[.*\]>::len$", m_view_len),
